@@ -58,10 +58,27 @@ PARAM_NAMES = ["client", "Client", "url", "client_query", "clientQuery", "client
 LOCS = ["query", "header", "cookie", "path"]
 
 
+def _rename_closure():
+    """names closed under the renaming operators of _check_parameters_for_conflicts (suffix `_<location>`), two levels"""
+    base = ["a-b", "a_b", "client"]
+    sfx = ["query", "header"]
+    lvl1 = [f"{b.replace('-', '_')}_{s}" for b in ("a_b", "client") for s in sfx]
+    lvl2 = [f"{n}_{s}" for n in lvl1 for s in sfx]
+    return base + lvl1 + lvl2
+
+
 def param_conflicts_cases(tier):
     pairs = [(n, l) for n in PARAM_NAMES for l in LOCS]
     out = [[p] for p in pairs]
     out += [list(c) for c in itertools.permutations(pairs, 2)]
+    # four parameters over a name universe closed under the renaming operators (a rename can collide with a declared name
+    # only if that name is in the universe): regression family of the repaired defect first, then sampled / all
+    out += [[("a-b", l1), ("a_b_" + l2, l1), (f"a_b_{l2}_{l2}", l1), ("a_b", l2)]
+            for l1 in LOCS for l2 in LOCS if l1 != l2]
+    import random
+    cpairs = [(n, l) for n in _rename_closure() for l in ("query", "header")]
+    quads = list(itertools.permutations(cpairs, 4))
+    out += [list(c) for c in (random.Random(11).sample(quads, 4000) if tier != "thorough" else random.Random(11).sample(quads, 120000))]
     if tier == "thorough":
         import random
         rnd = random.Random(7)
